@@ -454,14 +454,20 @@ pub fn main(args: &[String]) {
         let mut src0 = m.rust();
         let mut tag = String::from("plain");
         if i % 3 != 0 {
-            let (t, items) = crate::extras::extras(&mut rng, &m, prof.option);
+            let (t, items) = crate::extras::extras_with(&mut rng, &m, prof.option, Some(i / BACKENDS.len() + i));
             let with = crate::extras::splice(&src0, &items);
             if gen(&with, target).is_ok() {
                 src0 = with;
                 tag = t;
             }
         }
-        let Some(items) = bridge_items(&src0) else { continue };
+        let Some(mut items) = bridge_items(&src0) else { continue };
+        // an attribute on one impl block (it must stay with that block's methods wherever the block ends up)
+        if i % 2 == 1 {
+            if let Some(it) = items.iter_mut().find(|it| it.text.trim_start().starts_with("impl")) {
+                it.text = format!("#[diplomat::abi_rename = \"scoped_{{0}}\"] #[diplomat::attr(cpp, rename = \"scoped_{{0}}\")] {}", it.text);
+            }
+        }
         let type_names: Vec<String> = {
             let mut v: Vec<String> = items.iter().filter_map(|i| i.about.clone()).collect();
             v.sort();
